@@ -736,8 +736,8 @@ func RunC04DictPage(ctx *core.Ctx) {
 	types := c4DictTypes()
 	ftypes := c4dpFileTypes()
 	nw := min(max(runtime.GOMAXPROCS(0), 2), 12)
-	perType := ctx.Scale(700, 5000)
-	files := ctx.Scale(240, 1500)
+	perType := ctx.Scale(700, 2500)
+	files := ctx.Scale(240, 900)
 	lens := []int{1, 2, 3, 7, 8, 9, 12, 15, 16, 17, 23, 24, 25, 31, 32, 33, 63, 64, 65, 100, 127, 128, 129, 255, 256, 257, 511, 512, 513, 1000}
 	dsizes := []int{1, 1, 2, 2, 3, 4, 5, 8, 9, 16, 17, 31, 33, 64, 100, 255, 256, 257, 300}
 	var wg sync.WaitGroup
